@@ -135,9 +135,10 @@ impl LruPageCache {
                 PAGE_SIZE - offset_in_page
             );
             
-            // Copy data from the page
-            let page_end = offset_in_page + bytes_to_copy;
-            if page_end <= page_data.len() {
+            // Copy data from the page; the last page of a file is shorter than
+            // PAGE_SIZE, so a read that ends beyond EOF gets the bytes the file has
+            let page_end = (offset_in_page + bytes_to_copy).min(page_data.len());
+            if offset_in_page < page_end {
                 result_buffer.extend_from_slice(&page_data[offset_in_page..page_end]);
             }
             
